@@ -865,8 +865,8 @@ Proof. induction f as [|[x sc] f IH]; intro e; cbn; [reflexivity|]. now rewrite 
 
 Theorem oracle_sound : forall c, corr_b c = true -> prop_b c = true.
 Proof.
-  intros [md sinit tr0 bad hook pre feed p snap_seq snap_tr snap_orders snap_eq ticks engs reps whole|];
-    [|discriminate].
+  intros [md sinit tr0 bad hook pre feed p snap_seq snap_tr snap_orders snap_eq ticks engs reps whole| |];
+    [|discriminate|reflexivity].
   intro H. unfold corr_b in H.
   pose proof (model_run_spec md sinit tr0 bad hook pre feed) as SP. cbv zeta in SP.
   assert (WFE : wf_case (mkCase md sinit tr0 bad hook pre feed p snap_seq snap_tr snap_orders snap_eq
